@@ -234,7 +234,11 @@ NodeInfo(rq) == /\ rq.op = "nodeinfo"
 (* ApplyBatchInternal) work whatever readOnly says and whoever holds the transaction lock; SetReadOnly is the       *)
 (* lifecycle switch; it may be thrown while transactions are open (a node demoted to replica under load).           *)
 
-ApplierOps == {"apply_put", "apply_merge", "apply_del", "apply_batch"}   \* a merge entry is applied like a put
+\* every entry type the log accepts - put, delete, merge (applied like a put) - singly through EngineApplier.Apply
+\* (apply_put / apply_del / apply_merge), as the entries of one batch through EngineApplier.Apply one after the other
+\* (apply_entries: that is how the Replica applies a batch) and through ApplyBatchInternal (apply_batch); inside rq.ops the
+\* entry type is t = "put" | "del" | "merge"
+ApplierOps == {"apply_put", "apply_merge", "apply_del", "apply_batch", "apply_entries"}
 ApplyInternal(rq) ==
   /\ rq.op \in ApplierOps
   /\ db' = CASE rq.op \in {"apply_put", "apply_merge"} -> [db EXCEPT ![rq.k] = rq.v]
